@@ -118,6 +118,16 @@ def subjects():
             else:
                 comp = [["complete", "a", "cancel"]] + ([["complete", "b", "cancel"]] if n == 2 else [])
             S[name]["variants"][kind] = {"setup": [["expr", "S", e]], "complete": comp}
+    # combinators decided EARLY: the output is settled by one input while a sibling input is still pending
+    early = {
+        "f_or/early": (["f_or", ["src", "a"], ["src", "b"]], {"value": [["complete", "a", "value", 1]]}),
+        "f_and/early": (["f_and", ["src", "a"], ["src", "b"]], {"value": [["complete", "a", "value", 0]], "error": [["complete", "a", "error", "E1"]]}),
+        "f_zip/early": (["f_zip", ["src", "a"], ["src", "b"]], {"error": [["complete", "a", "error", "E1"]], "cancel": [["complete", "a", "cancel"]]}),
+        "f_or(f_or,f_or)/shared-input": (["f_or", ["f_or", ["src", "a"], ["src", "b"]], ["f_or", ["src", "b"], ["src", "c"]]], {"value": [["complete", "a", "value", 1]]}),
+        "f_and(f_zip,b)/shared-input": (["f_and", ["f_zip", ["src", "a"], ["src", "b"]], ["src", "b"]], {"error": [["complete", "a", "error", "E1"]]}),
+    }
+    for name, (e, variants) in sorted(early.items()):
+        S[name] = {"variants": dict((kind, {"setup": [["expr", "S", e]], "complete": comp}) for kind, comp in variants.items())}
     # futures that are born finished (f_return / f_return_error / f_return_cancelled): the protocol holds for them too - in
     # particular a waiter handed one must be answered at once
     S["f_return*"] = {"variants": {
@@ -174,7 +184,7 @@ def input_names(setup):
     for op in setup:
         if op[0] == "expr":
             txt = repr(op[2])
-            out += [n for n in ("a", "b") if "['src', '%s']" % n in txt]
+            out += [n for n in ("a", "b", "c") if "['src', '%s']" % n in txt]
     # (the futures inside an executor stack are not reachable by user code, so only expressions have inputs in this sense)
     return out
 
@@ -185,7 +195,12 @@ def make_prog(subject, variant, actors, order="completer-first", reenter=False):
     if reenter:
         # user code re-enters the subject: a done-callback on each future the subject depends on calls S.cancel() - it runs
         # inside S.cancel() when that cancels the input, or inside the chain of calls that is completing S
-        v["setup"] = v["setup"] + [["add_cb", n, "re_" + n, ["op", ["cancel", "S"]]] for n in input_names(v["setup"])]
+        if reenter == "down":
+            # ... or the other way round: a done-callback on the SUBJECT cancels every future the subject depends on (a clean-up
+            # hook); it runs on whichever thread settles the subject, in the middle of the library's own completion code
+            v["setup"] = v["setup"] + [["add_cb", "S", "down_" + n, ["op", ["cancel", n]]] for n in input_names(v["setup"])]
+        else:
+            v["setup"] = v["setup"] + [["add_cb", n, "re_" + n, ["op", ["cancel", "S"]]] for n in input_names(v["setup"])]
     threads = [list(v["complete"])]
     k = 0
     for acts in actors:
@@ -369,6 +384,7 @@ def sweep_cases():
             if input_names(d["variants"][variant]["setup"]):
                 for a in ("cancel", "add_cb"):
                     out.append({"subject": subj, "variant": variant, "actors": [[a, "state"]], "reenter": True})
+                out.append({"subject": subj, "variant": variant, "actors": [["add_cb", "state"]], "reenter": "down"})
     return out
 
 
@@ -398,7 +414,7 @@ def case_strategy():
         actors = [draw(st.lists(st.sampled_from(ACTOR_KINDS), min_size=1, max_size=4)) for _ in range(nact)]
         return {"subject": subj, "variant": variant, "actors": actors, "tape": draw(gen.tapes(8)),
                 "order": draw(st.sampled_from(["completer-first", "actors-first"])),
-                "clock": draw(st.sampled_from(["exact", "exact", "preempt"])), "reenter": draw(st.integers(0, 3)) == 0}
+                "clock": draw(st.sampled_from(["exact", "exact", "preempt"])), "reenter": draw(st.sampled_from([False, False, False, True, "down"]))}
 
     return cases()
 
